@@ -52,8 +52,8 @@ def run_library(case):
     try:
         if rr.get("exc") or rr.get("exit") != 0:
             e = rr.get("exc") or {}
-            res["violations"].append({"mech": "shroud-rejects-admitted-library:%s:%s" % (e.get("type"), e.get("where")),
-                                      "detail": "%s: %s %s" % (lib["name"], e.get("type"), (e.get("msg") or "")[:600])})
+            _k, _t = engine.reject_mech(rr)
+            res["violations"].append({"mech": "shroud-rejects-admitted-library:" + _k, "detail": "%s: %s" % (lib["name"], _t)})
             return res
         out = os.path.join(cwd, "out")
         objs = engine.build_objects(lib, out, res)
